@@ -83,6 +83,43 @@ func MonC02(r *core.Run, o *core.Obs) []core.Finding {
 			fs = append(fs, core.Finding{Clause: "instance-shared-between-scopes", Sig: m.Features(p.Reg), Detail: fmt.Sprintf("%s of scoped %s was observed in scopes %v", o.InstName(id), m.Describe(p.Reg), ss)})
 		}
 	}
+	// (2b) the caller's view: every direct resolution of one scoped IDENTITY (type, key) in one
+	// scope returns the same instance - whichever registration produced it
+	type idk struct {
+		scope    int
+		typ, key string
+	}
+	got := map[idk]map[int64]bool{}
+	for i := range r.Results {
+		res := &r.Results[i]
+		if res.Op >= len(r.Ops) {
+			continue
+		}
+		op := r.Ops[res.Op]
+		if op.Kind != core.OpGet || res.Class != "ok" || len(res.Insts) != 1 || res.Insts[0] == nil {
+			continue
+		}
+		p, ok := m.Services[core.IdentKey{Type: op.Type, Key: op.Key}]
+		if !ok || m.Regs[p.Reg].Life != godi.Scoped || m.Regs[p.Reg].Meta == nil {
+			continue
+		}
+		k := idk{op.Scope, op.Type, op.Key}
+		if got[k] == nil {
+			got[k] = map[int64]bool{}
+		}
+		got[k][res.Insts[0].ID] = true
+	}
+	for k, ids := range got {
+		if len(ids) > 1 {
+			var names []string
+			for id := range ids {
+				names = append(names, o.InstName(id))
+			}
+			sort.Strings(names)
+			p := m.Services[core.IdentKey{Type: k.typ, Key: k.key}]
+			fs = append(fs, core.Finding{Clause: "two-instances-in-one-scope", Sig: m.Features(p.Reg) + ":by-identity", Detail: fmt.Sprintf("scope s%d returned %d different instances for the scoped identity (%s,%q) registered by %s: %v", k.scope, len(ids), k.typ, k.key, m.Describe(p.Reg), names)})
+		}
+	}
 	// (4) initializers: exactly once per created scope, while it is being created
 	created := map[int]int{0: 0} // scope id -> creating op (root scope: Build = op 0)
 	for i := range r.Results {
@@ -205,6 +242,52 @@ func runC02(c *eng.Ctx) {
 		}
 		c.R.End(idx, eng.Hash("c02", kind, r.Spec.Canon(), len(r.Ops), extra["variant"]), nt && r.Built)
 	}
+	// (a0) directed: one alias of a scoped multi-identity registration replaced by another scoped
+	// registration ("Remove, then add the mock"); the replaced identity is resolved before AND
+	// after the constructor of the original registration has run in that scope
+	rmReg := func(t, key string) core.Reg { return core.Reg{Remove: true, RmType: t, RmKey: key, Tail: true} }
+	directed := []struct {
+		spec  *core.Spec
+		first core.Op // resolved first, then everything, then again
+	}{
+		{&core.Spec{Regs: []core.Reg{core.MkReg("Leaf_K0_a", godi.Scoped, core.WithAs("IK0", "IA")), rmReg("IA", ""), core.MkReg("Leaf_K1_a", godi.Scoped, core.WithAs("IA"))}}, core.Op{Kind: core.OpGet, Type: "IA"}},
+		{&core.Spec{Regs: []core.Reg{core.MkReg("MR_K0K1", godi.Scoped), rmReg("K1", ""), core.MkReg("Leaf_K1_b", godi.Scoped)}}, core.Op{Kind: core.OpGet, Type: "K1"}},
+		{&core.Spec{Regs: []core.Reg{core.MkReg("OutN_K0K1", godi.Scoped), rmReg("K0", "k"), core.MkReg("Leaf_K0_b", godi.Scoped, core.WithName("k"))}}, core.Op{Kind: core.OpGet, Type: "K0", Key: "k"}},
+		{&core.Spec{Regs: []core.Reg{core.MkReg("Leaf_S3_a", godi.Scoped, core.WithAs("IS3", "IB"), core.WithName("k")), rmReg("IB", "k"), core.MkReg("Leaf_S2_a", godi.Scoped, core.WithAs("IB"), core.WithName("k"))}}, core.Op{Kind: core.OpGet, Type: "IB", Key: "k"}},
+	}
+	for di, d := range directed {
+		idx, mine := next()
+		if !mine {
+			continue
+		}
+		m := core.NewModel(d.spec)
+		if m.Class != core.ClsOK {
+			panic(fmt.Sprintf("harness fixture %d of C02 (a0) is not buildable: %s", di, m.Class))
+		}
+		c.R.Begin(idx)
+		r := core.NewRun(d.spec, m, nil, nil)
+		r.Build()
+		if r.Built {
+			for _, parent := range []int{0, 0} {
+				sc := r.Do(core.Op{Kind: core.OpCreate, Scope: parent, CtxKind: 1}).NewScope
+				op := d.first
+				op.Scope = sc
+				r.Do(op)
+				core.ProbeRegistered(r, sc)
+				r.Do(op)
+				core.ProbeRegisteredReverse(r, sc)
+				r.Do(op)
+			}
+			// the provider's own root scope too
+			op := d.first
+			op.Scope = 0
+			r.Do(op)
+			core.ProbeRegistered(r, 0)
+			r.Do(op)
+			r.Finish()
+		}
+		finish(idx, r, "directed-replaced-alias", map[string]any{"kind": "directed-replaced-alias", "variant": di})
+	}
 	// (a) sequential random
 	nSeq := c.Pick(600, 20000)
 	for k := 0; k < nSeq; k++ {
@@ -215,7 +298,7 @@ func runC02(c *eng.Ctx) {
 		rng := core.CaseRng(c.Seed, "C02", idx)
 		lifes := []godi.Lifetime{godi.Scoped, godi.Scoped, godi.Singleton, godi.Transient}
 		full := k%6 == 5
-		s, m := core.GenSpec(rng, core.GenOpts{Want: core.ClsOK, Specials: true, Values: k%5 == 0, Lifetimes: lifes, MultiAlias: full})
+		s, m := core.GenSpec(rng, core.GenOpts{Want: core.ClsOK, Specials: true, Values: k%5 == 0, Lifetimes: lifes, MultiAlias: full || k%4 == 1, Removes: k%4 == 1})
 		if s == nil {
 			continue
 		}
